@@ -210,6 +210,42 @@ RecEnds == {<<>>, <<SEmit("sum", <<>>)>>, <<SEmit("cnt", <<"b">>)>>, <<SEmit("to
 RecordCases == {Case(Prog(<<>>, <<>>, m, e, q), Recs2) : m \in Seqs(RecStmts, 1, 2), e \in RecEnds, q \in BOOLEAN}
 
 (***************************************************************************)
+(* "positional": $[[n]] (the name of field n) and $[[[n]]] (its value) on   *)
+(* both sides of an assignment, in and out of range, followed by accesses BY *)
+(* NAME to the renamed field (new name present, old name absent); emitf.     *)
+(***************************************************************************)
+Pad(n) == [i \in 1..n |-> <<"p" \o ToString(i), I(i)>>]
+RecsWide(n) == [k \in 1..Len(Recs2) |-> Recs2[k] \o Pad(n)]
+PosNameE(e) == [t |-> "posname", e |-> e]
+PosValE(e) == [t |-> "posval", e |-> e]
+PosNameL(e) == Lhs("posname", "", <<e>>)
+PosValL(e) == Lhs("posval", "", <<e>>)
+SEmitF(names) == [t |-> "emitf", names |-> names]
+PosIdx == {EInt(0), EInt(1), EInt(2), EInt(3), NRx}
+PosStmts == {SAssign(PosNameL(i), EStr("NEW")) : i \in PosIdx}
+            \cup {SAssign(PosValL(i), v) : i \in PosIdx, v \in {EStr("NEW"), EInt(7)}}
+            \cup {SAssign(F("c"), PosNameE(i)) : i \in PosIdx}
+            \cup {SAssign(F("c"), PosValE(i)) : i \in PosIdx}
+            \cup {SAssign(PosValL(EInt(1)), Bin(".", PosNameE(EInt(2)), PosValE(EInt(2)))),     \* $[[[1]]] = $[[2]] . $[[[2]]]
+                  SAssign(PosNameL(EInt(2)), Bin(".", PosNameE(EInt(1)), EStr("x"))),              \* $[[2]] = $[[1]] . "x"
+                  SUnset(F("a")), SAssign(F("a"), EInt(9)), SAssign(F("z"), EInt(0))}
+\* what follows: accesses by name to the old and the new name, a second rename, unset of the new name
+PosTails == {<<>>, <<SAssign(F("e"), Fld("NEW"))>>, <<SAssign(F("e"), Fld("a"))>>, <<SUnset(F("NEW"))>>, <<SAssign(F("NEW"), EInt(5))>>,
+             <<SAssign(PosNameL(EInt(1)), EStr("M"))>>, <<SAssign(F("e"), Bin(".", PosNameE(EInt(1)), PosNameE(EInt(2))))>>}
+\* (renaming a field to a name another field of the record already has is documented nowhere)
+PositionalCases ==
+  {Case(Prog(<<>>, <<>>, m \o t, <<>>, FALSE), Recs2) :
+     m \in {x \in Seqs(PosStmts, 1, 2) : Cardinality({i \in 1..Len(x) : x[i].t = "assign" /\ x[i].lhs.t = "posname" /\ x[i].e = EStr("NEW")}) <= 1},
+     t \in PosTails}
+  \* the same on records of exactly 12 and of 13 fields (from a dozen fields on a record has a key index, which a rename
+  \* must keep in step with the names)
+  \cup {Case(Prog(<<>>, <<>>, m \o t, <<>>, FALSE), rs) : m \in Seqs(PosStmts, 1, 1), t \in PosTails, rs \in {RecsWide(10), RecsWide(11)}}
+  \cup {Case(Prog(<<>>, <<SAssign(O("n", <<>>), EInt(0)), SAssign(O("s", <<>>), EStr("q"))>>,
+                  <<SOp(O("n", <<>>), Oos("n"), "+", Fld("a")), SAssign(O("s", <<>>), Bin(".", Oos("s"), Fld("b")))>> \o x,
+                  <<SEmitF(ns)>>, q), Recs2) :
+           x \in {<<>>, <<SEmitF(<<"n">>)>>, <<SEmitF(<<"s", "n">>)>>}, ns \in {<<"n">>, <<"n", "s">>, <<"s", "n">>}, q \in BOOLEAN}
+
+(***************************************************************************)
 (* "index": arrays 1-up, negative aliases, slices, out-of-bounds, auto-extend; *)
 (* maps auto-create; unset of elements                                       *)
 (***************************************************************************)
@@ -350,6 +386,6 @@ EmitSnapCases ==
   \cup {LawCase(Prog(<<>>, <<>>, t \o <<e>>, fin, TRUE), Recs2, Prog(<<>>, <<>>, t \o <<e>>, <<>>, TRUE), SubSeq(Recs2, 1, k)) :
            t \in {Tally, TallyMapFirst}, e \in REmit, fin \in {<<>>, <<SEmit("r", <<>>)>>}, k \in {1, 2}}
 
-Cases == CASE Family = "emitsnap" -> EmitSnapCases [] Family = "unset" -> UnsetCases [] Family = "multifor" -> MultiForCases [] Family = "hof" -> HofCases [] Family = "scope" -> ScopeCases [] Family = "func" -> FuncCases [] Family = "loops" -> LoopCases
+Cases == CASE Family = "positional" -> PositionalCases [] Family = "emitsnap" -> EmitSnapCases [] Family = "unset" -> UnsetCases [] Family = "multifor" -> MultiForCases [] Family = "hof" -> HofCases [] Family = "scope" -> ScopeCases [] Family = "func" -> FuncCases [] Family = "loops" -> LoopCases
            [] Family = "records" -> RecordCases [] Family = "index" -> IndexCases [] Family = "expr" -> ExprCases
 =============================================================================
